@@ -187,11 +187,15 @@ PLANS = {
         trusted_base=['own generators'],
     ),
     'C18': dict(
-        specs=[], contracts=[], targets=[], bounded=['bounded.c18_verit.run'], level='exploration',
+        models=[], specs=['spec.veritspec'], contracts=['contracts.verit'],
+        targets=['smt.veriT.verit_macro.try_resolve'], bounded=['bounded.c18_verit.run'], level='exploration',
         native_per_fn={'quick': 0, 'thorough': 0},
         rule='see coverage.bounded[0].rule',
         assumptions=[
-            "bounded stand-in only: ~85 rule evaluations, each an ad-hoc syntactic test; 'semantic consequence' is "
+            "deductive leaf: try_resolve (the pivot search of th_resolution) is proved to return positions of "
+            "complementary literals with the right side tag, and None only when no complementary pair exists (all "
+            "clause lengths, loop invariants over index-based specs); everything else is a bounded stand-in: "
+            "~85 rule evaluations, each an ad-hoc syntactic test; 'semantic consequence' is "
             "decided by z3 on an own encoding (propositional structure, equality, uninterpreted functions, linear "
             "integer / real arithmetic), 3 s per query, 'unknown' is never a violation",
             "rules with special argument formats are covered only where a dedicated generator exists (th_resolution, "
